@@ -6,11 +6,14 @@ the statement is left as written.
 * ``a, b = x, y``  ->  ``a = x; b = y`` when no earlier target is read by a later right-hand side and the later right-hand
   sides cannot observe an earlier attribute target (no call in them);
 * ``list()`` / ``dict()`` / ``tuple()`` without arguments  ->  ``[]`` / ``{}`` / ``()``; ``x[slice(a, b, c)]`` -> ``x[a:b:c]``;
-  ``x[0:n]`` -> ``x[:n]``;
+  ``x[0:n]`` -> ``x[:n]``; ``"a{}b".format(x)`` -> ``f"a{x}b"``; ``s = slice(..); x[s]`` and ``f = obj.method; f(..)`` are forwarded
+  to their single use sites when nothing they read is re-bound in between;
 * ``xs += [e]``  ->  ``xs.append(e)`` for a local that is only ever bound to list displays in the function;
 * ``d.update(k=v, ...)`` (keywords only, statement)  ->  ``d['k'] = v; ...`` for a local only ever bound to dict displays;
 * ``x = y = v`` with a constant v  ->  ``x = v; y = v``;
 * ``x = A if C else B``  ->  ``if C: x = A`` / ``else: x = B``;
+* ``flag = <pure test> ... if flag and ..:``  ->  the test is written out where the flag is tested (single reaching definition,
+  nothing it reads re-bound in between; the assignment stays);
 * ``t = (a, b) ... p, q = t``  ->  ``p = a; q = b`` when that display is the only definition of t reaching the unpacking and a, b
   are not re-bound in between;
 * ``while True: if not C: break; BODY``  ->  ``while C: BODY`` (no else clause);
@@ -91,6 +94,20 @@ class _Displays(ast.NodeTransformer):
 
     def visit_Call(self, node):
         node = self.generic_visit(node)
+        # "a{}b{}".format(x, y)  ->  f"a{x}b{y}"   (plain positional placeholders only)
+        if isinstance(node.func, ast.Attribute) and node.func.attr == "format" and isinstance(node.func.value, ast.Constant) \
+                and isinstance(node.func.value.value, str) and not node.keywords and node.args and \
+                not any(isinstance(a, ast.Starred) for a in node.args):
+            lit = node.func.value.value
+            parts = lit.split("{}")
+            if len(parts) == len(node.args) + 1 and "{" not in "".join(parts) and "}" not in "".join(parts):
+                vals = []
+                for i, p_ in enumerate(parts):
+                    if p_:
+                        vals.append(ast.Constant(value=p_))
+                    if i < len(node.args):
+                        vals.append(ast.FormattedValue(value=node.args[i], conversion=-1, format_spec=None))
+                return ast.copy_location(ast.JoinedStr(values=vals), node)
         if isinstance(node.func, ast.Name) and not node.args and not node.keywords:
             if node.func.id == "list":
                 return ast.copy_location(ast.List(elts=[], ctx=ast.Load()), node)
@@ -328,10 +345,136 @@ def _forward_slices(fn) -> bool:
     return changed
 
 
+def _forward_callees(fn) -> bool:
+    """'f = obj.method; ...; f(args)'  ->  'obj.method(args)' when that assignment is the only definition of f reaching the
+    call and obj is not re-bound in between (a bound method fetched into a local before it is called)."""
+    defs_ = {st.targets[0].id for st in ast.walk(fn) if isinstance(st, ast.Assign) and len(st.targets) == 1
+             and isinstance(st.targets[0], ast.Name) and isinstance(st.value, ast.Attribute)
+             and not any(isinstance(y, (ast.Call, ast.Subscript)) for y in ast.walk(st.value))}
+    uses = [c for c in ast.walk(fn) if isinstance(c, ast.Call) and isinstance(c.func, ast.Name) and c.func.id in defs_]
+    if not uses:
+        return False
+    from .cfg import CFG
+    try:
+        cfg = CFG(fn)
+    except Exception:  # pragma: no cover
+        return False
+    rd = cfg.reaching()
+    changed = False
+    for c in uses:
+        n = cfg.node_of(c)
+        if n is None:
+            continue
+        ds = rd.get(n, {}).get(c.func.id, set())
+        if len(ds) != 1:
+            continue
+        (d,) = ds
+        dst = cfg.nodes[d].ast if cfg.nodes[d].kind == "stmt" else None
+        if not (isinstance(dst, ast.Assign) and len(dst.targets) == 1 and isinstance(dst.targets[0], ast.Name)
+                and isinstance(dst.value, ast.Attribute)):
+            continue
+        if any(isinstance(y, (ast.Call, ast.Subscript)) for y in ast.walk(dst.value)):
+            continue
+        names_ = {y.id for y in ast.walk(dst.value) if isinstance(y, ast.Name)}
+        if any(rd.get(d, {}).get(v, set()) != rd.get(n, {}).get(v, set()) for v in names_):
+            continue
+        c.func = ast.copy_location(copy.deepcopy(dst.value), c.func)
+        changed = True
+    return changed
+
+
+_PURE_PREDICATES = {"isinstance", "hasattr", "callable", "issubclass"}
+
+
+def _flag_expr(e: ast.AST) -> bool:
+    """A side-effect free truth-valued expression over names, attributes and constants (isinstance / hasattr allowed)."""
+    if not isinstance(e, (ast.Compare, ast.BoolOp, ast.UnaryOp, ast.Call)):
+        return False
+    if isinstance(e, ast.UnaryOp) and not isinstance(e.op, ast.Not):
+        return False
+    for y in ast.walk(e):
+        if isinstance(y, ast.Call):
+            if not (isinstance(y.func, ast.Name) and y.func.id in _PURE_PREDICATES):
+                return False
+        elif isinstance(y, (ast.Subscript, ast.Lambda, ast.NamedExpr, ast.Yield, ast.YieldFrom, ast.Await, ast.IfExp, ast.ListComp,
+                            ast.SetComp, ast.DictComp, ast.GeneratorExp, ast.JoinedStr, ast.Starred)):
+            return False
+    return True
+
+
+def _forward_flags(fn) -> bool:
+    """'flag = <pure test>; ...; if flag and ..:'  ->  the test is written out where the flag is tested (if / while / assert
+    tests and their and / or / not operands), when that assignment is the only definition of the flag reaching the test and
+    nothing the test reads (names, self attributes) is re-bound in between.  The assignment itself stays."""
+    cand = {}
+    for st in ast.walk(fn):
+        if isinstance(st, ast.Assign) and len(st.targets) == 1 and isinstance(st.targets[0], ast.Name) and _flag_expr(st.value):
+            cand.setdefault(st.targets[0].id, []).append(st)
+    if not cand:
+        return False
+    from .cfg import CFG
+    try:
+        cfg = CFG(fn)
+    except Exception:  # pragma: no cover
+        return False
+    rd = cfg.reaching()
+    args = fn.args.posonlyargs + fn.args.args
+    me = args[0].arg if args else None
+
+    def reads(e):
+        out = set()
+        for y in ast.walk(e):
+            if isinstance(y, ast.Name):
+                out.add(y.id)
+            if isinstance(y, ast.Attribute) and isinstance(y.value, ast.Name) and y.value.id == me:
+                out.add(f"{me}.{y.attr}")
+        return out
+    changed = False
+
+    def subst(test_owner, field, n):
+        nonlocal changed
+
+        class S(ast.NodeTransformer):
+            def visit_Name(self, node):
+                nonlocal changed
+                if not isinstance(node.ctx, ast.Load) or node.id not in cand:
+                    return node
+                ds = rd.get(n, {}).get(node.id, set())
+                if len(ds) != 1:
+                    return node
+                (d,) = ds
+                dst = cfg.nodes[d].ast if cfg.nodes[d].kind == "stmt" else None
+                if dst not in cand[node.id]:
+                    return node
+                if any(rd.get(d, {}).get(v, set()) != rd.get(n, {}).get(v, set()) for v in reads(dst.value)):
+                    return node
+                changed = True
+                return ast.copy_location(copy.deepcopy(dst.value), node)
+
+            def generic_visit(self, node):
+                # only through truth-functional structure
+                if isinstance(node, (ast.BoolOp,)) or (isinstance(node, ast.UnaryOp) and isinstance(node.op, ast.Not)):
+                    return super().generic_visit(node)
+                return node
+        e = getattr(test_owner, field)
+        if isinstance(e, ast.Name):
+            setattr(test_owner, field, S().visit_Name(e))
+        else:
+            setattr(test_owner, field, S().visit(e))
+    for st in list(ast.walk(fn)):
+        if isinstance(st, (ast.If, ast.While, ast.Assert)):
+            n = cfg.stmt_node.get(st)
+            if n is not None:
+                subst(st, "test", n)
+    return changed
+
+
 def normalise_function(fn):
     _normalise_function_once(fn)
+    _forward_flags(fn)
     t = _forward_tuples(fn)
     sl = _forward_slices(fn)
+    _forward_callees(fn)
     if t or sl:
         _normalise_function_once(fn)  # forwarded displays are split into plain assignments, slice(..) calls become slices
 
